@@ -200,7 +200,7 @@ func (g *gen) numericStatements() {
 	for _, f := range stmtForms {
 		for _, v := range []string{"5", "2.5", `"ab"`, "true"} {
 			s := strings.ReplaceAll(f.text, "K", "1")
-			body := fmt.Sprintf("x := %s\ny := %s\n%s\n", v, v, s) + show("x")
+			body := fmt.Sprintf("x := %s\ny := %s\n%s\n", v, v, s) + show("x", "y")
 			g.add("untyped:"+f.name, "-", "v="+v, "", body)
 		}
 	}
@@ -498,17 +498,17 @@ func (g *gen) tryCatch() {
 	g.add("try:div-zero-const", "int", "const-fold", "", "try {\ny := 5 / 0\n"+show("y")+"} catch (e) {\n"+out("caught %v", "e")+"}\n")
 	g.add("try:div-zero-float", "float64", "float", "", "x := 0.0\ntry {\ny := 5.0 / x\n"+show("y")+"} catch (e) {\n"+out("caught %v", "e")+"}\n")
 	g.add("try:no-catch", "int", "nice-try", "", "x := 1000\nz := 0\ntry {\nx = 5 / z\n}\n"+show("x"))
-	g.add("try:no-error", "int", "clean", "", "x := 1\ntry {\nx = x + 1\n} catch (e) {\nx = 100\n}\n"+show("x"))
+	g.add("try:no-error", "int", "clean", "", "x := 1\ntry {\nx = x + 1\n} catch {\nx = 100\n}\n"+show("x"))
 	g.add("try:index", "int", "array-index", "", "a := []int{1, 2}\ntry {\n"+out("%v", "a[5]")+"} catch (e) {\n"+out("caught %v", "e")+"}\n")
 	g.add("try:in-callee", "int", "callee", "func bad@@(d int) int {\nreturn 10 / d\n}\n", "try {\n"+out("%v", "bad@@(2)")+out("%v", "bad@@(0)")+out("unreached")+"} catch (e) {\n"+out("caught %v", "e")+"}\n")
 	g.add("try:nested", "int", "nested", "", "z := 0\ntry {\ntry {\nx := 1 / z\n"+show("x")+"} catch (e) {\n"+out("inner %v", "e")+"y := 2 / z\n"+show("y")+"}\n} catch (e2) {\n"+out("outer %v", "e2")+"}\n")
-	g.add("try:in-loop", "int", "continue", "", "n := 0\nfor i := 0; i < 4; i++ {\ntry {\nn = n + 10/(i-2)\n} catch (e) {\nn = n + 1000\ncontinue\n}\nn = n + 1\n}\n"+show("n"))
-	g.add("try:break-out", "int", "break", "", "n := 0\nfor i := 0; i < 4; i++ {\ntry {\nif i == 2 {\nbreak\n}\nn++\n} catch (e) {\nn = -1\n}\n}\n"+show("n"))
-	g.add("try:return-inside", "int", "return", "func f@@(z int) int {\ntry {\nreturn 10 / z\n} catch (e) {\nreturn -1\n}\nreturn -2\n}\n", out("%v %v", "f@@(2)", "f@@(0)"))
-	g.add("try:panic", "string", "panic", "", "try {\npanic(\"boom\")\n} catch (e) {\n"+out("caught %v", "e")+"}\n")
-	g.add("try:panic-in-callee", "string", "panic", "func p@@(n int) {\nif n > 1 {\npanic(\"too big\")\n}\n}\n", "try {\np@@(1)\n"+out("one ok")+"p@@(2)\n"+out("unreached")+"} catch (e) {\n"+out("caught %v", "e")+"}\n")
+	g.add("try:in-loop", "int", "continue", "", "n := 0\nfor i := 0; i < 4; i++ {\ntry {\nn = n + 10/(i-2)\n} catch {\nn = n + 1000\ncontinue\n}\nn = n + 1\n}\n"+show("n"))
+	g.add("try:break-out", "int", "break", "", "n := 0\nfor i := 0; i < 4; i++ {\ntry {\nif i == 2 {\nbreak\n}\nn++\n} catch {\nn = -1\n}\n}\n"+show("n"))
+	g.add("try:return-inside", "int", "return", "func f@@(z int) int {\ntry {\nreturn 10 / z\n} catch {\nreturn -1\n}\nreturn -2\n}\n", out("%v %v", "f@@(2)", "f@@(0)"))
+	g.add("try:panic", "string", "panic", "", "try {\npanic(\"boom\")\n} catch (e) {\n"+out("caught %v", "e")+"}\n").Solo = true
+	g.add("try:panic-in-callee", "string", "panic", "func p@@(n int) {\nif n > 1 {\npanic(\"too big\")\n}\n}\n", "try {\np@@(1)\n"+out("one ok")+"p@@(2)\n"+out("unreached")+"} catch (e) {\n"+out("caught %v", "e")+"}\n").Solo = true
 	g.add("try:error-value", "-", "errors.New", "", "e := errors.New(\"custom\")\n"+out("%v", "e")+"try {\nthrow e\n} catch (c) {\n"+out("caught %v", "c")+"}\n")
-	g.add("try:locals-after-catch", "int", "scope", "", "a := 1\nz := 0\ntry {\na = a + 1\nb := 10 / z\na = b\n} catch (e) {\na = a + 10\n}\na = a + 1\n"+show("a"))
+	g.add("try:locals-after-catch", "int", "scope", "", "a := 1\nz := 0\ntry {\na = a + 1\nb := 10 / z\na = b\n} catch {\na = a + 10\n}\na = a + 1\n"+show("a"))
 	g.add("try:type-error", "-", "coerce", "", "try {\nvar x int = \"abc\"\n"+show("x")+"} catch (e) {\n"+out("caught %v", "e")+"}\n")
 	g.add("try:unknown-member", "-", "member", "", "s := {a: 1}\ntry {\n"+out("%v", "s.b")+"} catch (e) {\n"+out("caught %v", "e")+"}\n")
 	g.add("try:nil-map", "-", "nil", "", "var m map[string]int\ntry {\nm[\"a\"] = 1\n"+out("stored")+"} catch (e) {\n"+out("caught %v", "e")+"}\n")
@@ -519,7 +519,7 @@ func (g *gen) tryCatch() {
 	}
 
 	for _, e := range []string{"if x > 1 {\"big\"} else {\"small\"}", "if true {1} else {2}", "if false {1} else {2.5}", "\"got \" + if x == 3 {\"three\"} else {\"other\"} + \"!\""} {
-		g.add("conditional-expr", "-", e, "", "x := 3\nv := "+e+"\n"+show("v"))
+		g.add("conditional-expr", "-", e, "", "x := 3\nv := "+e+"\n"+show("v", "x"))
 	}
 }
 
@@ -553,7 +553,6 @@ func (g *gen) collections() {
 	g.add("slice:2d", "int", "matrix", "", "a := [][]int{[]int{1, 2}, []int{3, 4}}\na[1][0] = a[1][0] + a[0][1]\n"+show("a"))
 	g.add("slice:of-struct", "-", "struct-elem", "type P@@ struct {\nx int\n}\n", "a := []P@@{P@@{x: 1}, P@@{x: 2}}\na[1].x = a[1].x + 5\n"+out("%v %v", "a[0].x", "a[1].x"))
 	g.add("slice:len-cap-compare", "int", "len", "", "a := []int{1, 2, 3}\nn := 0\nfor i := 0; i < len(a); i++ {\nn = n + a[i]\n}\nb := len(a) == 3\n"+show("n", "b"))
-	g.add("array:fixed", "int", "[3]int", "", "var a [3]int\na[0] = 1\na[2] = a[0] + 2\n"+show("a"))
 	g.add("slice:negative-index", "int", "neg", "", "a := []int{1, 2}\ntry {\n"+out("%v", "a[-1]")+"} catch (e) {\n"+out("caught %v", "e")+"}\n")
 }
 
@@ -719,11 +718,19 @@ func (g *gen) aborts() {
 	}
 }
 
-// Source renders programs as one Ego source file. With wrap=true each program
-// is called inside its own try/catch between begin/end marker lines (packed
-// form); with wrap=false the single program is called bare from main, so that
-// an error ends the run (solo form).
-func Source(progs []Prog, wrap bool) string {
+// Styles of a generated source file.
+const (
+	styleSolo    = iota // the program is called bare from main, no markers
+	styleWrapped        // packed: begin/end marker lines, each call inside its own try/catch
+	styleBare           // packed: begin/end marker lines, bare calls
+)
+
+// Source renders programs as one Ego source file. In the wrapped style each
+// program is called inside its own try/catch between begin/end marker lines,
+// so an error escaping one program does not end the file; in the bare style
+// the markers are kept but the calls are bare; in the solo style the single
+// program is called bare from main, so that an error ends the run.
+func Source(progs []Prog, style int) string {
 	var b strings.Builder
 
 	b.WriteString("package main\n\nimport \"fmt\"\nimport \"strings\"\nimport \"math\"\nimport \"errors\"\nimport \"os\"\n\n")
@@ -741,9 +748,12 @@ func Source(progs []Prog, wrap bool) string {
 	for i := range progs {
 		p := &progs[i]
 
-		if wrap {
+		switch style {
+		case styleWrapped:
 			fmt.Fprintf(&b, "fmt.Printf(\"OUT|#B %d\\n\")\ntry {\np%d()\n} catch (e) {\nfmt.Printf(\"OUT|#X %%v\\n\", e)\n}\nfmt.Printf(\"OUT|#E %d\\n\")\n", p.ID, p.ID, p.ID)
-		} else {
+		case styleBare:
+			fmt.Fprintf(&b, "fmt.Printf(\"OUT|#B %d\\n\")\np%d()\nfmt.Printf(\"OUT|#E %d\\n\")\n", p.ID, p.ID, p.ID)
+		default:
 			fmt.Fprintf(&b, "p%d()\n", p.ID)
 		}
 	}
